@@ -7,6 +7,7 @@ package vsync
 import (
 	"sync"
 	"sync/atomic"
+	"time"
 
 	"verif/sched"
 )
@@ -25,6 +26,29 @@ func OnceFunc(f func()) func()                                 { return sync.Onc
 func OnceValue[T any](f func() T) func() T                     { return sync.OnceValue(f) }
 func OnceValues[T1, T2 any](f func() (T1, T2)) func() (T1, T2) { return sync.OnceValues(f) }
 
+// acquire takes the real lock. During the teardown of a controlled execution (every thread runs free)
+// a contended acquire polls with sleeps instead of blocking in the runtime: the sleeps are visible to
+// the bubble's clock, and a goroutine that can never get the lock (a deadlock in the code under
+// test) is unwound after hours of virtual time instead of taking the whole process down with
+// "all goroutines are asleep".
+func acquire(try func() bool, lock func()) {
+	if !sched.FreeMode() {
+		lock()
+		return
+	}
+	d := 100 * time.Microsecond
+	for i := 0; !try(); i++ {
+		if i > 400 {
+			sched.GiveUp("a mutex acquire never succeeded")
+			return
+		}
+		time.Sleep(d)
+		if d < time.Minute {
+			d *= 2
+		}
+	}
+}
+
 // Mutex is sync.Mutex with its acquire hooked.
 type Mutex struct {
 	real    sync.Mutex
@@ -35,18 +59,20 @@ type Mutex struct {
 func (m *Mutex) Lock() {
 	sched.MuLock(&m.st, false)
 	if sched.Abandoning() {
-		if !m.real.TryLock() {
-			m.phantom.Add(1)
-		}
+		// the execution is being abandoned (deadlock found, or a runaway thread): nobody may block any
+		// more, and what the real mutex holds no longer matters
+		m.real.TryLock()
 		return
 	}
-	m.real.Lock()
+	acquire(m.real.TryLock, m.real.Lock)
 }
 
 func (m *Mutex) Unlock() {
 	sched.MuUnlock(&m.st, false)
-	if m.phantom.Load() > 0 {
-		m.phantom.Add(-1)
+	if sched.Abandoning() {
+		// leave the real mutex unlocked whatever its state was (unlocking an unlocked mutex is fatal)
+		m.real.TryLock()
+		m.real.Unlock()
 		return
 	}
 	m.real.Unlock()
@@ -78,7 +104,7 @@ func (m *RWMutex) Lock() {
 		}
 		return
 	}
-	m.real.Lock()
+	acquire(m.real.TryLock, m.real.Lock)
 }
 
 func (m *RWMutex) Unlock() {
@@ -98,7 +124,7 @@ func (m *RWMutex) RLock() {
 		}
 		return
 	}
-	m.real.RLock()
+	acquire(m.real.TryRLock, m.real.RLock)
 }
 
 func (m *RWMutex) RUnlock() {
